@@ -880,3 +880,117 @@ def ifexp_to_if(fnode):
     fn.body = conv(fn.body)
     ast.fix_missing_locations(fn)
     return fn
+
+
+def padded_list_compare_to_loop(fnode, va, vb):
+    """the idiom `la = f(va); lb = f(vb); w = max(len(la), len(lb)); la.extend([c] * (w - len(la))); lb.extend([c] * (w - len(lb)));
+    <result from comparisons of la with lb>` rewritten as the position loop it abbreviates:
+
+        while la or lb:
+            a = c; b = c
+            if la: a = la.pop(0)
+            if lb: b = lb.pop(0)
+            if a < b: return <result when la < lb>
+            if a > b: return <result when la > lb>
+        return <result when la == lb>
+
+    Python orders lists of the same length by the first position where they differ, so the rewrite is exact when (1) both lists are
+    padded to the common length and (2) the rest of the function touches the two lists only by comparing one with the other: its
+    result is then a function of the three-way order, evaluated here on one representative pair per order.  Returns the new
+    function node, or None when the function does not have this shape."""
+    from . import consteval
+    body = [st for st in fnode.body if not (isinstance(st, ast.Expr) and isinstance(st.value, ast.Constant))]
+    if any(isinstance(n, (ast.While, ast.For)) for st in body for n in ast.walk(st)):
+        return None
+    la = lb = None
+    i = 0
+    for i, st in enumerate(body):
+        if not (isinstance(st, ast.Assign) and len(st.targets) == 1 and isinstance(st.targets[0], ast.Name)):
+            break
+        names = {x.id for x in ast.walk(st.value) if isinstance(x, ast.Name)}
+        if va in names and vb not in names and la is None:
+            la = st.targets[0].id
+        elif vb in names and va not in names and lb is None:
+            lb = st.targets[0].id
+        else:
+            break
+    else:
+        return None
+    if la is None or lb is None:
+        return None
+    head, rest = body[:i], body[i:]
+    width = None
+    pads = {}
+    k = 0
+    for k, st in enumerate(rest):
+        t = norm(st)
+        if isinstance(st, ast.Assign) and len(st.targets) == 1 and isinstance(st.targets[0], ast.Name) and \
+                norm(st.value) in ('max(len(%s), len(%s))' % (la, lb), 'max(len(%s), len(%s))' % (lb, la)):
+            width = st.targets[0].id
+            continue
+        ext = None
+        if isinstance(st, ast.Expr) and isinstance(st.value, ast.Call) and isinstance(st.value.func, ast.Attribute) and st.value.func.attr == 'extend' \
+                and len(st.value.args) == 1 and norm(st.value.func.value) in (la, lb):
+            ext = (norm(st.value.func.value), st.value.args[0])
+        elif isinstance(st, ast.AugAssign) and isinstance(st.op, ast.Add) and norm(st.target) in (la, lb):
+            ext = (norm(st.target), st.value)
+        if ext is not None and width is not None:
+            lst, e = ext
+            ok = isinstance(e, ast.BinOp) and isinstance(e.op, ast.Mult)
+            if ok:
+                l_, r_ = (e.left, e.right) if isinstance(e.left, ast.List) else (e.right, e.left)
+                ok = isinstance(l_, ast.List) and len(l_.elts) == 1 and isinstance(l_.elts[0], ast.Constant) and norm(r_) == '%s - len(%s)' % (width, lst)
+            if not ok or lst in pads:
+                return None
+            pads[lst] = l_.elts[0]
+            continue
+        break
+    else:
+        return None
+    tail = rest[k:]
+    if set(pads) != {la, lb}:
+        return None
+    # the tail touches the lists only by comparing one with the other
+    from .core import set_parents
+    for st in tail:
+        set_parents(st)
+    for st in tail:
+        for n in ast.walk(st):
+            if isinstance(n, ast.Name) and n.id in (la, lb):
+                par = getattr(n, '_parent', None)
+                if not (isinstance(par, ast.Compare) and len(par.ops) == 1 and {norm(par.left), norm(par.comparators[0])} == {la, lb}
+                        and isinstance(par.ops[0], (ast.Eq, ast.NotEq, ast.Lt, ast.LtE, ast.Gt, ast.GtE))):
+                    return None
+    results = {}
+    for order, (xa, xb) in (('lt', ([0], [1])), ('gt', ([1], [0])), ('eq', ([0], [0]))):
+        ev = consteval.Evaluator(lambda name: (_ for _ in ()).throw(consteval.NotConstant(name)))
+        try:
+            r = ev.run_block([clone(st) for st in tail], {la: list(xa), lb: list(xb)})
+        except consteval.NotConstant:
+            return None
+        if r is None or not isinstance(r[0], int) or isinstance(r[0], bool):
+            return None
+        results[order] = r[0]
+    src_ = (
+        'while {la} or {lb}:\n'
+        '    __a = {pa}\n'
+        '    __b = {pb}\n'
+        '    if {la}:\n'
+        '        __a = {la}.pop(0)\n'
+        '    if {lb}:\n'
+        '        __b = {lb}.pop(0)\n'
+        '    if __a < __b:\n'
+        '        return {lt}\n'
+        '    if __a > __b:\n'
+        '        return {gt}\n'
+        'return {eq}\n').format(la=la, lb=lb, pa=norm(pads[la]), pb=norm(pads[lb]), **results)
+    new_tail = ast.parse(src_).body
+    for st in new_tail:
+        for n in ast.walk(st):
+            if hasattr(n, 'lineno'):
+                n.lineno = n.end_lineno = tail[0].lineno
+    out = clone(fnode)
+    out.body = [clone(st) for st in head] + new_tail
+    ast.fix_missing_locations(out)
+    set_parents(out)
+    return out
